@@ -187,7 +187,51 @@ pub fn run_isolated(kind: &str, tier: &str, njobs: usize, nworkers: usize) -> Re
         deaths.extend(d);
     }
     deaths.sort_by_key(|d| d.job);
-    Ok((agg, deaths))
+    // A watchdog death seen while all workers (and whatever else runs on the machine) compete for CPU and memory is
+    // not yet a verdict: the case is run again ALONE, one at a time, with the same limit. Only a case that exceeds
+    // the limit on its own is reported; one that now ends in time is dropped from the list (and counted).
+    let mut kept = vec![];
+    for d in deaths {
+        if !d.how.starts_with("watchdog") {
+            kept.push(d);
+            continue;
+        }
+        let mut child = std::process::Command::new(&exe)
+            .args(["iso-job", kind, tier, &d.job.to_string()])
+            .stdout(std::process::Stdio::null())
+            .stderr(std::process::Stdio::null())
+            .spawn()
+            .map_err(|e| e.to_string())?;
+        let t0 = std::time::Instant::now();
+        let mut ended = None;
+        while t0.elapsed().as_secs() < WATCHDOG_SECS {
+            if let Ok(Some(st)) = child.try_wait() {
+                ended = Some(st);
+                break;
+            }
+            std::thread::sleep(std::time::Duration::from_millis(50));
+        }
+        match ended {
+            Some(st) if st.success() => agg.add("watchdog_deaths_not_confirmed_when_run_alone", 1),
+            Some(_) => kept.push(Death { job: d.job, how: format!("{} (alone: ended in time, with a failure)", d.how) }),
+            None => {
+                let _ = child.kill();
+                let _ = child.wait();
+                kept.push(Death { job: d.job, how: format!("{} (confirmed when run alone)", d.how) });
+            }
+        }
+    }
+    Ok((agg, kept))
+}
+
+/// Address-space limit for a process that runs untrusted-input cases outside worker_loop (iso-job).
+pub fn limit_memory(gib: u64) {
+    unsafe {
+        let lim = libc::rlimit { rlim_cur: gib << 30, rlim_max: gib << 30 };
+        libc::setrlimit(libc::RLIMIT_AS, &lim);
+        let z = libc::rlimit { rlim_cur: 0, rlim_max: 0 };
+        libc::setrlimit(libc::RLIMIT_CORE, &z);
+    }
 }
 
 pub struct WorkerArgs {
